@@ -320,7 +320,9 @@ func genFATHistory(t *rapid.T, o fatGenOpts) histCase {
 			}
 		}
 		if o.attrs && len(all) > 0 {
-			kinds = append(kinds, "chtimes", "attr")
+			for k := 0; k < 4; k++ {
+				kinds = append(kinds, "chtimes", "attr")
+			}
 		}
 		k := rapid.SampledFrom(kinds).Draw(t, "op")
 		switch k {
@@ -774,6 +776,9 @@ func (x *fatRun) reopen() {
 
 // run executes the history. It returns the device for callers that hash it.
 func (x *fatRun) run() {
+	for k := range fatMetaStore {
+		delete(fatMetaStore, k)
+	}
 	x.m = model.New(model.FoldFAT)
 	if !x.create() {
 		return
@@ -914,6 +919,11 @@ func (x *fatRun) exec(op fsOp) {
 			x.resync(src)
 			x.resync(op.Q)
 			return
+		}
+		if n := x.m.Lookup(src); n != nil {
+			if mm := fatMetaStore[n]; mm != nil {
+				mm.timesSet = false // Rename stamps the entry with the current time
+			}
 		}
 		_ = x.m.Rename(src, op.Q)
 		x.noteMut()
